@@ -135,7 +135,10 @@ CLAIMS = {
         "warning counts and per-stream deliveries must equal the model's.",
         "anyio memory object stream semantics (direct hand-over to a waiting receiver, WouldBlock) are modelled, not "
         "verified. Which subscriber overflowed is not observable (only the warning count is compared). event.time is only "
-        "checked to be a float; 'never blocks' is immediate (dispatch is a plain function).",
+        "checked to be a float; 'never blocks' is immediate (dispatch is a plain function). Two parts of the check have no "
+        "model side (implementation only): subscribers coming and going while another task dispatches (churn), and "
+        "Context.resource_added looked at through a component's own context and through the real context in either order "
+        "(a listener on the real one gets every event, stamped with the real context, also after start-up).",
         "8/C10",
     ),
     "C11": (
